@@ -39,7 +39,7 @@ func (p *Program) staticCallSites() map[*ssa.Function][]ssa.CallInstruction {
 
 // checkFieldDiscipline (A4): every access of a guarded field is made with its mutex held in the
 // required mode; accesses through a parameter without the lock are obligations of every caller.
-func (c *Ctx) checkFieldDiscipline(rule string, pkgs []string, eng *lockEngine) {
+func (c *Ctx) checkFieldDiscipline(rule string, pkgs []string, eng *lockEngine, floor int) {
 	guards := map[*types.Var]string{}
 	for _, g := range guardTable {
 		for _, f := range g.fields {
@@ -130,7 +130,7 @@ func (c *Ctx) checkFieldDiscipline(rule string, pkgs []string, eng *lockEngine) 
 	if nBad == 0 {
 		c.ok(rule, strings.Join(pkgs, ","), token.NoPos, fmt.Sprintf("all %d accesses of guarded fields are made with their mutex held in the required mode (%d through verified requires-lock helpers)", nAcc, nHelper))
 	}
-	c.floor(rule, nAcc, 40)
+	c.floor(rule, nAcc, floor)
 }
 
 func fieldName(f *types.Var) string {
@@ -138,7 +138,7 @@ func fieldName(f *types.Var) string {
 }
 
 // checkLockPairing (A5): every function returns with the locks it was entered with.
-func (c *Ctx) checkLockPairing(rule string, pkgs []string, eng *lockEngine) {
+func (c *Ctx) checkLockPairing(rule string, pkgs []string, eng *lockEngine, floor int) {
 	n, nBad := 0, 0
 	inPkgs := map[string]bool{}
 	for _, pk := range pkgs {
@@ -190,7 +190,7 @@ func (c *Ctx) checkLockPairing(rule string, pkgs []string, eng *lockEngine) {
 	if nBad == 0 {
 		c.ok(rule, strings.Join(pkgs, ","), token.NoPos, fmt.Sprintf("all %d functions with lock operations release what they take on every path (deferred operations replayed in LIFO order; helpers verified in the caller's context)", n))
 	}
-	c.floor(rule, n, 15)
+	c.floor(rule, n, floor)
 }
 
 // ---- lock order ----------------------------------------------------------------------------------
@@ -436,7 +436,7 @@ func (c *Ctx) checkLockOrder(rule string, pkgs []string, eng *lockEngine) {
 	if nBad == 0 {
 		c.ok(rule, strings.Join(pkgs, ","), token.NoPos, fmt.Sprintf("the lock-class order graph (%d edges) is acyclic and has no re-acquisition of a held class", len(uniq)))
 	}
-	c.floor(rule, len(uniq), 8)
+	c.floor(rule, len(uniq), 4)
 }
 
 // e1SideConditions: (i) the purge body runs only when root.closed is already set; (ii) in
